@@ -124,4 +124,34 @@ CHECKS = {
              "values, hand-written Begin/Commit pairs and conditional locking instead of guessing); one counter (scope/account/branch) per theorem instance; "
              "recovery (extendFoundAddresses) is outside the quantifier; no -race run (CGO off). Trusted: Coq kernel+vm_compute, Conc.v, extract-c09, proxydb, "
              "bbolt writer exclusivity. No axioms."),
+    "C05": dict(
+        text="Executable model of waddrmgr's lock discipline (disk blobs bound to passphrase generations, lock/watch-only flags, one boolean per clear-text "
+             "buffer), parameterised by 7 facts re-extracted from waddrmgr/*.go (go/ast) on every run. 14 theorems over ALL operation histories: (i) every private "
+             "accessor (PrivKey/ExportPrivKey, DeriveFromKeyPath(+PrivKey), DeriveFromKeyPathCache, secret Script/TaprootScript, Encrypt/Decrypt private|script, "
+             "NewAccount, ImportPrivateKey, secret script imports) returns a locked/watching-only error and no key material in every state with locked or "
+             "watch-only; every reachable locked or watching-only state holds no secret clear text (master, crypto priv/script, hashed passphrase, account keys, "
+             "address keys incl. the cached last addresses, secret scripts of all three kinds, derived-key cache); Lock clears all of them from any state; "
+             "(ii) the current private passphrase always unlocks whatever was created or loaded, any other fails and leaves the manager locked and wiped; "
+             "(iv) private and public passphrase change: new works, old fails, immediately and after any later history including restarts; 7 C05_refuted_* "
+             "witnesses, one per fact. Correspondence: real waddrmgr on bbolt, corpus replays + scenarios + random histories with right/near-miss/former "
+             "passphrases, restarts, conversions; every accessor probed after every operation; hook VerifSecretBuffers plus reflection on the cached last "
+             "addresses compared with the model.",
+        note="Five defects found and repaired (fix: 9cfa76a, 9338e0c, bbb3dca, ebd132b, 206f834); replays run first from corpus/C05. PARTIAL: crypto strength "
+             "enters through an ideal KDF/digest law (C17's subject; harness passphrases <= 64 bytes without trailing NULs); every transaction commits iff the op "
+             "returned nil (C08/C10); ExtendAddresses, NewScopedKeyManager, InvalidateAccountCache not modelled; ImportPrivateKey on a watching-only manager "
+             "succeeds by design (stores the public key only). Trusted: go/ast extractor, harness (incl. the reflection read), driver. No axioms."),
+    "C11": dict(
+        text="Eleven theorems for every database state, transaction body, outcome and sequence of transactions: C11_failed_update_changes_nothing (error or "
+             "panic: committed state unchanged, writer released), C11_db_usable_after_any_history, C11_commit_makes_all_changes_visible_together, "
+             "C11_reopen_sees_committed_partial, C11_reachable_states_well_formed, C11_read_your_writes, C11_readonly_cannot_modify (every mutating op on a "
+             "read-only tx fails and changes nothing), C11_cursor_order (First/Next ascending byte order, Last/Prev its reverse, Seek = least entry >= k), "
+             "C11_cursor_delete_then_reseek, C11_namespaces_independent, C11_incomparable_buckets_commute. Model KV/KV.v: a bucket is one name space ordered by "
+             "byte-lexicographic name, each name bound to a value or a nested bucket, plus a sequence counter; operations transcribed from bdb/db.go with the "
+             "error classes of convertErr. Tie to the code: random sequences of 3-12 transactions on a real bbolt file through walletdb+bdb (Update/View closures "
+             "returning nil/error/panicking, manual Begin/Commit/Rollback, reader overlapping a writer, close+reopen), every call result, error class, cursor "
+             "walk and a dump of the whole tree after each step compared with the model, plus a model-independent oracle on the dumps.",
+        note="PARTIAL: 'after the file is reopened' - reopen is the identity in the model; durability and crash atomicity of the file are bbolt's (trusted; only "
+             "clean close+reopen is exercised). Outside the compared patterns: cursor use after Cursor.Delete without re-positioning, and Last/Prev over a "
+             "multi-page bucket that had deletions in the same transaction (bbolt 1.3.11 Cursor.Prev stops at an emptied leaf page - dependency behaviour, "
+             "recorded in DESIGN 9.3, probe VERIF_C11_PROBE=1). No axioms (Print Assumptions closed x11; coqchk: none)."),
 }
